@@ -1,6 +1,9 @@
 import PyramidModel.Lemmas.Route
 import PyramidModel.Lemmas.RouteParse
 import PyramidModel.Lemmas.RouteParseOld
+import PyramidModel.Lemmas.RouteProbe
+import PyramidModel.Lemmas.RouteAdd
+import PyramidModel.Props.C04
 import PyramidModel.Gen.C01
 /-!
 # C01 — URL dispatch picks the first declared route whose pattern and predicates match
@@ -28,27 +31,57 @@ Reading guide
   without `:name` markers) `_compile_route`'s parsing gives back exactly the prefix, placeholders (name, regex text),
   literals and remainder name it was written from (`parse_render`), hence the expected token list (`compile_render`);
   the same for old-style `:name` patterns (`parse_render_old`).
+* §5 the `add_route` layer: the prefix in force inside nested `include(route_prefix=…)` calls is the documented
+  `/`-join of the non-empty stripped prefixes (`route_prefix_join`), the pattern connected is that join, one slash,
+  and the pattern without its leading slashes (`route_prefix_pattern`); under a literal prefix the route matches
+  exactly `/P` followed by what the un-prefixed route matches, with the same dictionary (`route_prefix_language`);
+  `path=` is `pattern=`, the two refusals; `GET` implies `HEAD`; the order of a route's predicates does not influence
+  selection; and — citing C04's `conflict_free_is_sorted` / `phaseSort_stable` — the default-phase actions of a
+  conflict-free configuration (the `route-connect` actions among them) execute in declaration order whatever the
+  include nesting (`connect_order_is_declaration_order`).
 -/
 namespace Pyr.Route
 
 open Pyr.Rx (Rx Ucd Lang)
 open Pyr.Trav (splitPathInfo utf8Dec)
 
-/-! ## 0. the generated facts -/
+/-! ## 0. the generated facts (obtained by probing the running code, see `extract/c01.py`) -/
 
-/-- `_compile_route` and `RoutesMapper` in the tree under test have the shape this model was written for: `\Z`
-anchor, `[^/]+` default, lazy `.*?` remainder group, `re.escape` on both literal sites, the three module-level
-regexes, `split(':', 1)`, in-order loop with `continue`, static routes kept out, remainder through
-`split_path_info`.  Fails (by `decide`) as soon as the translator reads anything else. -/
+/-- the probe ran on the tree under test without anything unexpected -/
+theorem probe_is_clean : Pyr.Gen.C01.probeProblems = [] := by decide
+
+/-- `_compile_route` and `RoutesMapper` of the tree under test *behave* as this model was written for: `\Z`
+anchor, `[^/]+` default, `(?s:.*?)` remainder group, literals escaped as `re.escape` does, old-style / star / brace
+grammar, `split(':', 1)`, in-order loop with `continue`, static routes kept out, remainder through
+`split_path_info` — each read off discriminating probes.  Fails (by `decide`) as soon as a probe answers otherwise. -/
 theorem source_is_what_the_model_assumes : Pyr.Gen.C01.cfg = Cfg.std := by decide
 
-/-- the default placeholder tree prints to the very text found in the source -/
+/-- the default placeholder tree prints to the very text the running code expands `{x}` to -/
 theorem default_regex_text : Rx.print Rx.notSlashPlus = Pyr.Gen.C01.phDefaultText.toList := by decide
 
-/-- the remainder group and the anchor the model prints are the source's -/
+/-- the remainder group and the anchor the model prints are those of the running code -/
 theorem rest_and_anchor_text :
     regexText [.rest ['r']] = "(?P<r>(?s:.*?))".toList ++ Pyr.Gen.C01.anchorText.toList ∧
     Pyr.Gen.C01.restTplText = "(?P<%s>(?s:.*?))" := by decide
+
+/-- the regex trees of the cube print to the texts used in its patterns, and lie in the fragment -/
+theorem probe_library_prints :
+    Pyr.Gen.C01.probeLib.map Rx.print = Pyr.Gen.C01.probeLibTexts.map String.toList ∧
+      Pyr.Gen.C01.probeLib.all Rx.ok = true := by decide
+
+/-- **The model compiles the pattern cube as the running code does**: for every probed pattern the regex text handed
+to `re.compile` is `regexText (compileRoute pattern)` (or both refuse the pattern), the generator template is
+`genTemplate`, and the matcher's answer on every probed path is `matchToks`. -/
+theorem compile_probes_agree :
+    Pyr.Gen.C01.compileProbes.all (CProbe.check (mkLib Pyr.Gen.C01.probeLib)) = true := by decide +kernel
+
+/-- **… and dispatches the probed scenarios as the running `RoutesMapper` does** (order, `continue`, predicates that
+read the match, static, re-connect, empty / missing / undecodable path). -/
+theorem mapper_probes_agree :
+    Pyr.Gen.C01.mapperProbes.all (MProbe.check (mkLib Pyr.Gen.C01.probeLib)) = true := by decide +kernel
+
+/-- the tables are not empty -/
+theorem probe_sizes : 50 ≤ Pyr.Gen.C01.compileProbes.length ∧ 20 ≤ Pyr.Gen.C01.mapperProbes.length := by decide
 
 /-! ## 1. the regex matcher -/
 
@@ -435,5 +468,104 @@ example : oldPieceWf Ucd.ascii ("x".toList, "y/".toList) = false := by decide
 
 /-- outside the hypothesis: a literal that ends in `*word` is (by design of the grammar) a remainder marker -/
 example : restWf Ucd.ascii "/a*b".toList none = false := by decide
+
+/-! ## 5. `Configurator.add_route` and `route_prefix` -/
+
+/-- **`route_prefix_join`.**  Inside `include(…, route_prefix=p₁)` … `include(…, route_prefix=p_k)` (outermost first, no
+prefix on the root configurator) the prefix in force is the documented join: every `pᵢ` stripped of slashes at both
+ends, the empty ones dropped, the rest joined by single slashes — or no prefix at all when nothing is left. -/
+theorem route_prefix_join (incs : List (Option Text)) : prefixAt none incs = joinSpec incs :=
+  prefixAt_none incs
+
+/-- … and the pattern `add_route` connects at that depth is the join, one slash, and the pattern without its leading
+slashes (the pattern itself when there is no prefix). -/
+theorem route_prefix_pattern (incs : List (Option Text)) (pattern : Text) :
+    routePattern (prefixAt none incs) pattern false =
+      match joinSpec incs with
+      | none => pattern
+      | some P => P ++ '/' :: lstripSlash pattern := by
+  rw [route_prefix_join]
+  cases h : joinSpec incs with
+  | none => rfl
+  | some P =>
+    obtain ⟨hne, _, hl⟩ := joinSpec_clean incs P h
+    simp [routePattern, hne, rstrip_of_last P hl]
+
+example : joinSpec [some "/api/".toList, none, some "//".toList, some "v1/users".toList] = some "api/v1/users".toList := by
+  decide
+example : routePattern (prefixAt none [some "/api/".toList, some "v1".toList]) "/{id}".toList false = "api/v1/{id}".toList := by
+  decide
+/-- an empty pattern under a prefix: `prefix/`, or the bare prefix with `inherit_slash` -/
+example : routePattern (some "api".toList) [] false = "api/".toList ∧ routePattern (some "api".toList) [] true = "api".toList := by
+  decide
+
+/-- **A literal prefix prepends exactly its text.**  Let the route's own pattern be written per the grammar as
+(`/pfx0`, placeholders, remainder) and let `P` be a clean prefix such that the joined text is again well-formed (`P`
+has no `{`, no `:name` marker, no `*word` ending).  Then the pattern connected under `P` compiles to the route's own
+tokens with `/P` in front of the first literal, and it matches a path iff the path is `/P` followed by a path the
+un-prefixed route matches — with the same alternatives, hence the same match dictionary. -/
+theorem route_prefix_language (u : Ucd) (lib : Lib) (P pfx0 : Text) (pieces : List (RawPh × Text)) (rem : Option Text)
+    (hP : Clean P) (hbody : (pfx0 ++ renderPieces pieces ++ renderRest rem).head? ≠ some '/')
+    (hwf : RawWf u ('/' :: P ++ '/' :: pfx0) pieces rem) (ts : List Tok) (hres : piecesToks lib pieces = some ts)
+    (hnames : (tokNames (.lit ('/' :: P ++ '/' :: pfx0) :: ts ++ restToks rem)).all isIdentA = true ∧
+      dupFree (tokNames (.lit ('/' :: P ++ '/' :: pfx0) :: ts ++ restToks rem)) = true) :
+    compileRoute u lib (routePattern (some P) (renderRaw ('/' :: pfx0) pieces rem) false) =
+        .ok (.lit ('/' :: P ++ '/' :: pfx0) :: ts ++ restToks rem) ∧
+      ∀ (a : Anchor) (p : Text),
+        matchAll u a (.lit ('/' :: P ++ '/' :: pfx0) :: ts ++ restToks rem) p =
+          match dropPrefix? ('/' :: P) p with
+          | some r => matchAll u a (.lit ('/' :: pfx0) :: ts ++ restToks rem) r
+          | none => [] := by
+  refine ⟨compile_prefixed u lib P pfx0 pieces rem hP hbody hwf ts hres hnames, ?_⟩
+  intro a p
+  have : ('/' :: P ++ '/' :: pfx0) = ('/' :: P) ++ ('/' :: pfx0) := by simp
+  rw [this]
+  exact matchAll_lit_append u a ('/' :: P) ('/' :: pfx0) (ts ++ restToks rem) p
+
+/-- non-vacuity: prefix `api/v1`, pattern `/users/{id}*rest` -/
+example : Clean "api/v1".toList ∧
+    RawWf Ucd.ascii ('/' :: "api/v1".toList ++ '/' :: "users/".toList) [(⟨"id".toList, none⟩, [])] (some "rest".toList) :=
+  ⟨by decide, ⟨by decide, by decide, by decide, Or.inl (by simp), by decide⟩⟩
+example : matchToks Ucd.ascii [.lit "/api/v1/users/".toList, .ph "id".toList Rx.notSlashPlus, .rest "rest".toList] "/api/v1/users/7/a".toList
+    = some [("id".toList, .str "7".toList), ("rest".toList, .segs ["a".toList])] := by decide
+
+/-- `path=` is the old spelling of `pattern=`; without either, and with `inherit_slash` on a non-empty pattern, `add_route`
+refuses. -/
+theorem add_route_args (pfx : Option Text) (a : RouteArgs) :
+    (a.pattern = none → a.path = none → addRoute pfx a = .error .patternNone) ∧
+    (∀ p, a.pattern = none → a.path = some p → addRoute pfx a = addRoute pfx { a with pattern := some p }) ∧
+    (∀ p, a.pattern = some p → a.inheritSlash = true → p ≠ [] → addRoute pfx a = .error .inheritSlash) ∧
+    (∀ p, a.pattern = some p → a.inheritSlash = false →
+      addRoute pfx a = .ok (routePattern pfx p false, a.preds, a.static)) := by
+  refine ⟨?_, ?_, ?_, ?_⟩
+  · intro h1 h2; simp [addRoute, h1, h2]
+  · intro p h1 h2; simp [addRoute, h1, h2]
+  · intro p h1 h2 h3; simp [addRoute, h1, h2, h3]
+  · intro p h1 h2; simp [addRoute, h1, h2]
+
+/-- `request_method='GET'` also lets `HEAD` through; other methods are exactly those listed. -/
+theorem get_implies_head (val : List Text) (h : val.contains "GET".toList = true) :
+    requestMethodHolds val "HEAD".toList = true := by
+  unfold requestMethodHolds
+  split <;> simp_all
+
+example : requestMethodHolds ["POST".toList] "HEAD".toList = false ∧ requestMethodHolds ["GET".toList] "POST".toList = false := by
+  decide
+
+/-- The order in which a route's predicates are listed (the predicate list sorts them) cannot change which route is
+selected: only their conjunction matters. -/
+theorem predicate_order_irrelevant (e : Env) (ps qs : List Pred) (h : ps.Perm qs) : predsHold e ps = predsHold e qs :=
+  h.all_eq
+
+/-- **Connect order = declaration order, across includes** (cites C04).  In a conflict-free configuration without
+re-entrancy the commit executes all actions, and those of any one phase — in particular the default phase `0`, where
+`add_route` registers `('route-connect', name)` — run in the order they were declared, whatever include path each
+carries.  (`mapper.connect` is therefore called in declaration order, which `routelist_is_declaration_order` turns into
+"first declared = least index".) -/
+theorem connect_order_is_declaration_order (top : List Pyr.Actions.Act) (hn : Pyr.Actions.IdsNodup top)
+    (hp : Pyr.Actions.Plain top) (hd : Pyr.Actions.DistinctKeys top) (fuel : Nat) (hf : top.length < fuel) (o : Int) :
+    ∃ E : List Pyr.Actions.Act, Pyr.Actions.run Pyr.Actions.noKids fuel top = (.ok, E.map (·.id)) ∧
+      Pyr.Actions.atOrd o E = Pyr.Actions.atOrd o top :=
+  ⟨Pyr.Actions.phaseSort top, Pyr.Actions.conflict_free_is_sorted top hn hp hd fuel hf, Pyr.Actions.phaseSort_stable top o⟩
 
 end Pyr.Route
